@@ -14,7 +14,7 @@ import (
 // ---- Include: C10 (fresh loads of generated graphs) and C11 (histories on a shared loader)
 
 type incOp struct {
-	Op         string `json:"op"` // load | loadcontent | write | clear | invalidate | reset
+	Op         string `json:"op"` // load | loadcontent | write | remove | clear | invalidate | reset
 	File       string `json:"file"`
 	Content    string `json:"content"`
 	Invalidate bool   `json:"invalidate"`
@@ -180,6 +180,11 @@ func init() {
 					if err := writeFiles(dir, map[string]string{op.File: subst(op.Content, dir, homerel)}); err != nil {
 						return nil, err
 					}
+					if op.Invalidate {
+						shared.InvalidateFile(p)
+					}
+				case "remove":
+					_ = os.Remove(p)
 					if op.Invalidate {
 						shared.InvalidateFile(p)
 					}
